@@ -78,6 +78,8 @@ def run_case(rng, idx, tier):
     before = dict(contracts.COUNTS)
     c = Case()
     kind = ["H", "H", "H", "D", "D", "S", "A"][idx % 7]
+    if idx % 14 == 13:
+        kind = "N"
     try:
         if kind == "H":
             _history(c, rng, tier)
@@ -85,6 +87,8 @@ def run_case(rng, idx, tier):
             _doctests(c, rng, idx)
         elif kind == "S":
             _sweep(c, rng, idx)
+        elif kind == "N":
+            _collide(c, rng)
         else:
             _alias(c, rng)
     finally:
@@ -192,6 +196,73 @@ def _sweep(c, rng, idx):
                 called.append(name + "!")
     c.sample = {"workload": "sweep", "start": sname, "called": called}
     c.fp = fp_of("S", sname, tuple(called))
+
+
+def _collide(c, rng):
+    """Name collisions: public calls asked to create something under a name the model already uses.  Every call may
+    refuse (raise); a call that returns must return a well-formed model (K-WF: unique names, nothing undefined)."""
+    import pharmpy.modeling as pm
+    from pharmpy.model import Parameter
+
+    from vp import contracts, histories
+
+    A = histories.alphabet()
+    with contracts.off():
+        starts = histories.start_models()
+        sname = rng.choice(sorted(starts))
+        model = _fresh(starts[sname])
+        for name in histories.random_history(rng, rng.randint(0, 2)):
+            try:
+                new = A[name][1](model, rng)
+                if new is not None:
+                    model = new
+            except Exception:
+                pass
+        pnames = list(model.parameters.names)
+        etas = list(model.random_variables.etas.names)
+        assigned = [s.symbol.name for s in model.statements if hasattr(s, "symbol")]
+    calls = []
+    p = rng.choice(pnames)
+    calls.append(("add_population_parameter", lambda: pm.add_population_parameter(model, p, 0.5)))
+    calls.append(("add_individual_parameter", lambda: pm.add_individual_parameter(model, rng.choice(assigned))))
+    if etas and assigned and rng.random() < 0.3:  # stratum B: the construct of C06/add-iiv-custom-eta-name-collision
+        calls.append(("add_iiv:existing-eta-name", lambda: pm.add_iiv(model, rng.choice(assigned), "exp", eta_names=[rng.choice(etas)])))
+    # (rename_symbols onto an existing name is excluded: its docstring makes name clashes the caller's responsibility)
+    calls.append(("Parameters.__add__", None))
+    calls.append(("add_effect_compartment", lambda: pm.add_effect_compartment(pm.add_effect_compartment(model, "linear"), "linear")))
+    calls.append(("add_metabolite", lambda: pm.add_metabolite(pm.add_metabolite(model))))
+    calls.append(("add_peripheral_compartment", lambda: pm.add_peripheral_compartment(model, "PERIPHERAL1")))
+    done = []
+    with contextlib.redirect_stdout(io.StringIO()):
+        for name, fn in rng.sample(calls, min(len(calls), 6)):
+            try:
+                if fn is None:
+                    # the component-level form of the same request
+                    c.hit("collide_component_call")
+                    res = model.parameters + Parameter.create(p, 0.25)
+                    nm = list(res.names)
+                    if len(set(nm)) != len(nm):
+                        c.violate(None, f"[K-WF] Parameters + Parameter({p!r}) returned parameters with duplicate names {sorted(set(n for n in nm if nm.count(n) > 1))}")
+                elif name == "add_iiv:existing-eta-name":
+                    pre = contracts.drain()
+                    try:
+                        fn()
+                    finally:
+                        for ev in contracts.drain():
+                            key = ("C06/add-iiv-custom-eta-name-collision"
+                                   if ev["kind"] == "K-WF" and "add_iiv returned" in ev["msg"] and "duplicate random variable names" in ev["msg"]
+                                   else classify(ev))
+                            c.violate(key, f"[{ev['kind']}] {ev['msg']}", ev.get("extra"))
+                        contracts.EVENTS.extend(pre) if hasattr(contracts, "EVENTS") else None
+                else:
+                    fn()
+                done.append(name)
+            except Exception:
+                c.hit("collide_call_refused")
+                done.append(name + "!")
+    c.hit("collide_calls", len(done))
+    c.sample = {"workload": "collide", "start": sname, "calls": done}
+    c.fp = fp_of("N", sname, tuple(done), p)
 
 
 def _alias(c, rng):
